@@ -62,6 +62,8 @@ pub fn seed(name: &str) -> Vec<Ev> {
             Ev::Reorg { depth: 1, how: Replacement::Same },
             Ev::Evict(TxName::P(1)),
         ],
+        // as S10, and the appointment has been handed in (its penalty bounced, it was dropped with a receipt), a block later
+        "S12" => vec![Ev::Register(1), mine(vec![TxName::D(1)]), Ev::External(TxName::PAlt(1)), add(1, 1, Blob::Valid), Ev::MineP(MineSel::Empty)],
         _ => panic!("unknown seed {name}"),
     }
 }
@@ -353,7 +355,7 @@ fn c01_alphabet(tier: Tier) -> Alphabet {
 
 fn c01_models(tier: Tier, props: Vec<&'static str>) -> Vec<(TowerModel, usize)> {
     let mut models = Vec::new();
-    let seeds: &[(&str, usize, usize)] = &[("S0", 5, 7), ("S1", 4, 6), ("S2", 4, 6), ("S3", 4, 5), ("S9", 4, 6), ("S10", 4, 6), ("S11", 3, 5)];
+    let seeds: &[(&str, usize, usize)] = &[("S0", 5, 7), ("S1", 4, 6), ("S2", 4, 6), ("S3", 4, 5), ("S9", 4, 6), ("S10", 4, 6), ("S11", 3, 5), ("S12", 3, 5)];
     for (sd, dq, dt) in seeds {
         for txindex in if tier == Tier::Quick { vec![false] } else { vec![false, true] } {
             models.push((
@@ -448,11 +450,15 @@ pub fn c08(tier: Tier) -> i32 {
     let mut models = Vec::new();
     // (branching factor ~20: three to_self_delay values x five blob kinds x two users; depth 4 / 3 is what
     // a quick run completes, the thorough tier goes to 7 / 6 within its budget)
-    for (sd, dq, dt) in [("S0", 4usize, 7usize), ("S1", 3, 6)] {
+    for (sd, dq, dt) in [("S0", 4usize, 7usize), ("S1", 3, 6), ("S12", 3, 5)] {
         let mut a = Alphabet::basic();
         a.users = vec![1, 2];
         a.disps = vec![1];
         a.blobs = vec![(Blob::Valid, false), (Blob::Raw(1), false), (Blob::Raw(2049), false), (Blob::Bad, false), (Blob::Alt, false)];
+        if sd == "S12" {
+            // the conflicting spend goes away: a penalty the node refused a block ago is acceptable now
+            a.evictions = vec![TxName::PAlt(1)];
+        }
         a.tsds = vec![42, 0, u32::MAX];
         a.max_registers_per_user = 2;
         a.max_adds = 3;
